@@ -37,7 +37,7 @@ func statFieldsEq(a, b *types.Stat) string {
 }
 
 // c05Notes checks one re-sync's notification log.
-func c05Notes(what string, o *resyncObs) error {
+func c05Notes(what string, o *resyncObs, filter int) error {
 	// (1) replay the events on a model of the old destination's path set
 	model := map[string]bool{}
 	isDir := map[string]bool{}
@@ -144,6 +144,14 @@ func c05Notes(what string, o *resyncObs) error {
 			if nk != h.KDir && nk != h.KSocket && n.Stat.ModTime != a.Mtime {
 				return fmt.Errorf("%s: notification says %q has mtime %d, the destination's entry has %d", what, n.Path, n.Stat.ModTime, a.Mtime)
 			}
+			// a directory this transfer created (new inode) carries the announced mtime
+			if b := o.before[n.Path]; nk == h.KDir && (b == nil || b.Ino != a.Ino) && n.Stat.ModTime != a.Mtime {
+				return fmt.Errorf("%s: notification says the new directory %q has mtime %d, the destination's directory has %d", what, n.Path, n.Stat.ModTime, a.Mtime)
+			}
+			// without an owner-rewriting filter the owner is the announced one, too
+			if filter == 0 && nk != h.KSocket && (n.Stat.Uid != a.Uid || n.Stat.Gid != a.Gid) {
+				return fmt.Errorf("%s: notification says %q belongs to %d:%d, the destination's entry to %d:%d", what, n.Path, n.Stat.Uid, n.Stat.Gid, a.Uid, a.Gid)
+			}
 		}
 		// (5) digest = H(header(stat as sent) || bytes now stored)
 		var content []byte
@@ -218,7 +226,7 @@ func c05Check(env *h.Env, c *histCase) error {
 			return nil
 		}
 		what := fmt.Sprintf("sync %d (edits %v, memsrc=%v)", k, c.Edits[k], c.MemSrc)
-		if err := c05Notes(what, o); err != nil {
+		if err := c05Notes(what, o, c.Filter); err != nil {
 			return err
 		}
 		nMod, nDel := 0, len(o.removedTop)
